@@ -112,6 +112,8 @@ func buildC02(c *CheckCtx) {
 	c.Technique = "per-production token-conservation contracts over the SSA of every grammar action (yield taken from the real printer's trace), printer helper contracts; composition by the argument of DESIGN Appendix A.1"
 	runs := c.addGram(gramWant{Shape: true, Conserve: true, Linear: true})
 	_ = runs
+	c.checkDriverGlue()
+	c.addScan() // L-tile: the text and offsets of the tokens the scanner hands out (same obligations as C04)
 	kinds := astKinds(c.W)
 	c.checkPrinter(kinds) // P-order: the layout the conservation obligations use is what every path of the printer emits
 	c.addFunctionUnits(func(con *Contract) bool { return hasProp(con, "C02") })
@@ -138,7 +140,11 @@ func buildC07(c *CheckCtx) {
 	c.Level = "other"
 	c.Technique = "sub-sequence form of the token-conservation contracts over every grammar action incl. error productions, linear use of nodes and tokens, no stale $$"
 	c.addGram(gramWant{Shape: true, Sub: true, Linear: true})
-	c.Explain = "Covers the second sentence of C07 (recovery never invents, duplicates or reorders text): every action's result prints a sub-sequence of the tokens of its right-hand side, each token object at most once; error productions and actions that report an error may drop tokens but not add any; an action never returns a stale stack slot. The first sentence (which statements survive recovery) is behaviour of the LALR tables under error recovery and is not decided."
+	c.checkDriverGlue()
+	c.addFunctionUnits(func(con *Contract) bool {
+		return (con.Pkg == modPath+"/internal/php7" || con.Pkg == modPath+"/internal/php5") && con.Key == "(*Parser).Error"
+	})
+	c.Explain = "Covers the second sentence of C07 (recovery never invents, duplicates or reorders text): every action's result prints a sub-sequence of the tokens of its right-hand side, each token object at most once; error productions and actions that report an error may drop tokens but not add any; an action never returns a stale stack slot; the glue between scanner and driver hands the scanner's tokens through unchanged (Parser.Lex pinned by exact trace, Parser.Error writes nothing). The first sentence (which statements survive recovery) is behaviour of the LALR tables under error recovery and is not decided."
 }
 
 func buildC10(c *CheckCtx) {
@@ -153,6 +159,14 @@ func init() {
 	propBuilders["C01"] = buildC01
 	propBuilders["C06"] = buildC06
 	propBuilders["C04"] = buildC04
+}
+
+// checkDriverGlue: the hand-written glue between scanner and LR driver is pinned by exact-trace contracts.
+func (c *CheckCtx) checkDriverGlue() {
+	for _, pk := range []string{"internal/php7", "internal/php5"} {
+		f := loadFamily(c.W, modPath+"/"+pk, "(*Parser)")
+		c.checkHelpers(f, pk+".(*Parser)")
+	}
 }
 
 func (c *CheckCtx) boundN() string {
